@@ -199,6 +199,19 @@ def split_cases(ops, case_start):
     return starts
 
 
+def real_code_panic(err):
+    """does the Go traceback of a dead probe start inside src-d/hercules itself (not in the probe or the harness)?"""
+    m = re.search(r'goroutine \d+ \[running\]:\n((?:.*\n)*)', err or '')
+    if not m:
+        return False
+    for line in m.group(1).split('\n'):
+        line = line.strip()
+        if not line or line.startswith('/') or line.startswith('panic(') or line.startswith('runtime.') or line.startswith('created by'):
+            continue
+        return line.startswith('gopkg.in/src-d/hercules.v10/') and '/verifharness/' not in line
+    return False
+
+
 def run_shard(spec, seed, count, tag):
     """runs one probe shard + the Lean driver on its ops.  Returns dict with paths and status."""
     d = os.path.join(WORK, 'run', tag)
@@ -229,6 +242,29 @@ def run_shard(spec, seed, count, tag):
     res['probe_s'] = time.time() - t0
     if res['probe_rc'] != 0 and os.path.exists(impl + '.current'):
         res['current_case'] = open(impl + '.current').read().strip()
+    elif res['probe_rc'] not in (0, None, -9) and count > 0 and real_code_panic(res['err']):
+        # a line-protocol probe died inside the real code: find the first case that kills it (every probe derives its
+        # cases from the seed in order, so a shorter run is a prefix of a longer one)
+        def dies(k):
+            try:
+                r2 = subprocess.run([exe, str(seed), str(k), ops + '.bisect', impl + '.bisect'] +
+                                    [str(x) for x in spec.get('extra', [])], cwd=d, env=GOENV, stdout=subprocess.DEVNULL,
+                                    stderr=subprocess.DEVNULL, timeout=spec.get('timeout', PROBE_TIMEOUT[0]), preexec_fn=limits)
+                return r2.returncode != 0
+            except subprocess.TimeoutExpired:
+                return True
+        lo, hi = 0, count          # survives lo cases, dies within hi
+        if dies(hi):
+            while hi - lo > 1:
+                mid = (lo + hi) // 2
+                if dies(mid):
+                    hi = mid
+                else:
+                    lo = mid
+            res['current_case'] = '%d/%d (seed / number of the case, counted from 1, in that probe run)' % (seed, hi)
+        for x in (ops + '.bisect', impl + '.bisect', impl + '.bisect.oracle', impl + '.bisect.stats'):
+            if os.path.exists(x):
+                os.remove(x)
     if spec.get('fam') is not None and os.path.exists(ops):
         t0 = time.time()
         with open(ops, 'rb') as fin, open(model, 'wb') as fout:
